@@ -8,7 +8,7 @@
     setting with [f_seq_wrap] off (that is: also for the cache-key defect that the
     current code has). *)
 From Coq Require Import List ZArith Bool NArith.
-From V Require Import lib.Verdict model.M_C29 proofs.P_C29.
+From V Require Import lib.Verdict model.M_C29 gen.Gen_C29 proofs.P_C29.
 Import ListNotations.
 Open Scope Z_scope.
 
@@ -152,6 +152,12 @@ Theorem C29_min_nonzero_ttl : forall ts,
      0 < minnz_list ts /\ In (minnz_list ts) ts /\ Forall (fun t => 0 < t -> minnz_list ts <= t) ts).
 Proof. exact minnz_list_spec. Qed.
 Print Assumptions C29_min_nonzero_ttl.
+
+(** [min_nz] of the model is utilities.go minNonZeroTTL as translated by go2coq from
+    the current source (time.Duration = int64; min/max do not overflow). *)
+Theorem C29_min_nz_is_the_code : forall a b, min_nz a b = Gen_C29.minNonZeroTTL a b.
+Proof. exact min_nz_translated. Qed.
+Print Assumptions C29_min_nz_is_the_code.
 
 (** The fuel of the model's recursion is not a loophole. *)
 Theorem C29_fuel_enough : forall f cf st p d,
